@@ -76,23 +76,10 @@ def check_property(prop, tier, repo, record=False, verbose=False):
     for fn, sts in can_by_fn.items():
         if "sat" not in sts:
             problems.append("canary postcondition of %s was not refuted (%s): encoding vacuous?" % (fn, sorted(set(sts))))
-    # reachability: at least one normal-exit VC per function has a satisfiable path condition
-    by_target = {}
-    for o in obs.values():
-        if o.kind in ("ensures", "lemma"):
-            by_target.setdefault(o.target, []).extend(o.vcs)
-    for tgt, vcs in by_target.items():
-        ok = False
-        for v in vcs[:6]:
-            s = z3.Solver()
-            s.set("timeout", 5000)
-            for c in v.pc:
-                s.add(c)
-            if s.check() != z3.unsat:
-                ok = True
-                break
-        if not ok:
-            problems.append("no reachable normal exit under the precondition of %s (contradictory requires?)" % tgt)
+    for tgt in rep["unreachable"]:
+        problems.append("no reachable normal exit under the precondition of %s (contradictory requires?)" % tgt)
+    for tgt, tb in rep["errors"]:
+        problems.append("checker crashed on %s:\n%s" % (tgt, tb))
     # --- known findings ---------------------------------------------------------------
     violations = []
     known_hit = []
@@ -155,7 +142,7 @@ def check_property(prop, tier, repo, record=False, verbose=False):
     for o in list(obs.values())[:: max(1, len(obs) // 6)][:6]:
         v = o.vcs[0]
         samples.append({"obligation": o.name, "kind": o.kind, "clause": o.note, "paths": len(o.vcs), "status": o.status,
-                        "backend": sorted({x.backend for x in o.vcs}), "smt2_head": solve.vc_smt2(v)[:600]})
+                        "backend": sorted({x.backend for x in o.vcs}), "smt2_head": v.smt2_head})
     n_known = len(known_hit)
     n_claim = n_obl - n_known
     n_dis = len(discharged) + len([a for a in rep["ast"] if a["ok"]])
